@@ -4,6 +4,8 @@ package harness
 
 import (
 	"time"
+
+	"verif/simrt"
 )
 
 func init() {
@@ -17,6 +19,9 @@ func init() {
 // detector's report (collected by verifctl from the GORACE log), nothing else.
 func setupC20(x *Ctx) {
 	kinds := []string{"C10", "C05", "C11hub", "C18", "C17", "C19", "C10", "C05"}
+	if x.Feat(FeatDualStack) {
+		kinds = append(kinds, "unreachable-peer")
+	}
 	k := Pick(x, "workload", kinds)
 	x.SigAdd("workload=" + k)
 	switch k {
@@ -32,6 +37,34 @@ func setupC20(x *Ctx) {
 		setupC17(x)
 	case "C19":
 		setupC19(x)
+	case "unreachable-peer":
+		c20UnreachablePeer(x)
 	}
 	x.NonTrivial()
+}
+
+// c20UnreachablePeer: hub A has registered B; B is announced (IPv6 and IPv4
+// address, host name that does not resolve) but nothing listens there, and its
+// announcement is repeated all the time: connection attempts (which walk and
+// sort the reported addresses) overlap with the processing of mDNS items for
+// the same service.
+func c20UnreachablePeer(x *Ctx) {
+	x.SetFeatForRig(true, true)
+	r := newHubRig(x)
+	a, b := r.addNode("A"), r.addNode("B")
+	x.Go("B:start", func() {
+		b.create()
+		// B's hub is never started: only its announcement exists
+		_ = b.prov.Announce("svc-B", b.port, []string{"txtvers=1", "path=/ship/", "id=SHIPID-B", "ski=" + b.ski, "register=false", "brand=b", "model=m", "type=t"})
+	})
+	x.Go("A:start", func() {
+		a.create()
+		simrt.Recv("b", b.ready)
+		a.hub.RegisterRemoteSKI(b.ski)
+		a.hub.Start()
+	})
+	x.Go("X:end", func() {
+		simrt.Sleep(40 * time.Second)
+		x.S.Stop("done")
+	})
 }
